@@ -25,7 +25,7 @@ Print Assumptions C03_src_assemble.
 Example C03_src_example :
   let mk := map (fun x => L x true) in
   let e := E [cG;cG;cT;cC;cT;cC] 1 4 in
-  let circ w i := PR KCircularRecord w i [] None [] in
+  let circ w i := PR KCircularRecord w i [] an_empty [] 0 in
   let m1 := mk [cG;cG;cT;cC;cT;cC;cA; cC;cT;cA;cT; cC;cC; cA;cA;cT;cG; cT; cG;cA;cG;cA;cC;cC; cA;cT] in
   let m2 := mk [cG;cG;cT;cC;cT;cC;cA; cA;cA;cT;cG; cA;cC;cA; cG;cC;cT;cT; cT; cG;cA;cG;cA;cC;cC; cT;cA] in
   let v := mk [cA; cC;cT;cA;cT; cT; cG;cA;cG;cA;cC;cC; cT;cT;cT;cT; cG;cG;cT;cC;cT;cC; cA; cG;cC;cT;cT; cC; cC;cA] in
